@@ -40,7 +40,7 @@ def confirm(src, i, sid):
         rc, out = sh(SUITE, cwd=wt)
         m = re.search(r'(\d+) tests run: (\d+) passed(?: \((\d+) flaky\))?(?:, (\d+) failed)?', out)
         res['suite_with_change'] = {'rc': rc, 'summary': m.group(0) if m else out[-300:]}
-        failed = re.findall(r'^\s+FAIL .*?\] +(\S+ \S+)$', out, re.M)
+        failed = re.findall(r'^\s+FAIL \[.*?\] +(?:\(\S+\) +)?(\S+ \S+)$', out, re.M)
         res['suite_failed_tests'] = sorted(set(failed))
         r_mut = demo('with_change')
         ok = r_clean == 0 and r_mut != 0 and (rc == 0 or set(t.split()[-1] for t in failed) <= {'matching_regexes_with_case_insensitive_matching_and_verbose_mode'})
@@ -110,7 +110,7 @@ def detect(sid, props=None):
 
 def table():
     rows = []
-    for sid in sorted(os.listdir(SEEDED)):
+    for sid in sorted(x for x in os.listdir(SEEDED) if not x.startswith('_')):
         m = json.load(open(os.path.join(SEEDED, sid, 'meta.json')))
         dq = m.get('detection_quick', {})
         caught = dq.get('caught_by', [])
@@ -138,7 +138,7 @@ if __name__ == '__main__':
     if cmd == 'detect': detect(sys.argv[2], sys.argv[3:] or None)
     if cmd == 'scratch': detect_scratch(sys.argv[2], sys.argv[3:] or None)
     if cmd == 'scratch-all':
-        for sid in sorted(os.listdir(SEEDED)): detect_scratch(sid)
+        for sid in sorted(x for x in os.listdir(SEEDED) if not x.startswith('_')): detect_scratch(sid)
     if cmd == 'table': table()
     if cmd == 'detect-all':
-        for sid in sorted(os.listdir(SEEDED)): detect(sid)
+        for sid in sorted(x for x in os.listdir(SEEDED) if not x.startswith('_')): detect(sid)
